@@ -200,13 +200,63 @@ def run_flip(args):
     return ("whole-tree-flip-comparisons", "keep", "silent", "", [])
 
 
+def _invert_ifs(src):
+    """`if c: A else: B` rewritten as `if not c: B else: A` everywhere (elif chains left alone)."""
+    import ast as _ast
+    t = _ast.parse(src)
+    for n in _ast.walk(t):
+        if isinstance(n, _ast.If) and n.orelse and not (len(n.orelse) == 1 and isinstance(n.orelse[0], _ast.If)):
+            n.test = _ast.UnaryOp(op=_ast.Not(), operand=n.test)
+            n.body, n.orelse = n.orelse, n.body
+    _ast.fix_missing_locations(t)
+    out = _ast.unparse(t) + "\n"
+    compile(out, "<inverted>", "exec")
+    return out
+
+
+def _add_logging(src):
+    """A logger.debug(...) statement inserted at the start of every block of every function."""
+    import ast as _ast
+    t = _ast.parse(src)
+    for n in _ast.walk(t):
+        for field in ("body", "orelse", "finalbody"):
+            b = getattr(n, field, None)
+            if isinstance(b, list) and b and isinstance(b[0], _ast.stmt) and not isinstance(n, (_ast.Module, _ast.ClassDef)):
+                i = 1 if (isinstance(b[0], _ast.Expr) and isinstance(b[0].value, _ast.Constant) and isinstance(b[0].value.value, str)) else 0
+                b.insert(i, _ast.parse("logger.debug('trace')").body[0])
+    _ast.fix_missing_locations(t)
+    out = _ast.unparse(t) + "\n"
+    compile(out, "<logging>", "exec")
+    return out
+
+
+def run_xform(args):
+    prop, root, base_sig, name, fn = args
+    base = Tree(root)
+    try:
+        ov = {rel: fn(m.src) for rel, m in base.modules.items()}
+        ctx = analyse(prop, root, ov)
+    except AnalysisError as exc:
+        return (name, "keep", "analysis-error", str(exc), [])
+    except Exception as exc:
+        return (name, "keep", "analysis-error", "internal: " + repr(exc), [])
+    new = sorted({(f.rule, f.rel, f.func) for f in ctx.findings} - base_sig)
+    if new:
+        return (name, "keep", "FALSE-ALARM", " :: ".join(new[0]), [])
+    if getattr(ctx, "problems", None):
+        return (name, "keep", "analysis-error", "; ".join(ctx.problems), [])
+    return (name, "keep", "silent", "", [])
+
+
 def run_variants(prop, root, base_keys, only_controls):
     mod = rules_module(prop)
     vs = [v for v in getattr(mod, "VARIANTS", []) if (v.control or not only_controls)]
     jobs = [(prop, root, v, base_keys) for v in vs]
     if not only_controls:
         base_sig = {tuple(k.split(" :: ")[:3]) for k in base_keys}
-        extra = [run_reformat((prop, root, base_keys)), run_rename((prop, root, base_sig)), run_flip((prop, root, base_sig))]
+        extra = [run_reformat((prop, root, base_keys)), run_rename((prop, root, base_sig)), run_flip((prop, root, base_sig)),
+                 run_xform((prop, root, base_sig, "whole-tree-invert-ifs", _invert_ifs)),
+                 run_xform((prop, root, base_sig, "whole-tree-add-logging", _add_logging))]
     else:
         extra = []
     return extra + _run_variant_jobs(jobs)
